@@ -10,14 +10,15 @@ FAST_ENV = {"ASAN_OPTIONS": vlib.ASAN_ENV + ":symbolize=0"}
 PID = "C14"
 MANIFEST = dict(
         spec="NodeTree.tla (+MC_NodeTree, Gen_NodeTree, Trace_NodeTree)",
-        text="TLC checks exhaustively (handle tables of 3 nodes quick / 4 nodes thorough, every call with every position "
-             "-2..3, by position and by name) that the pointer operations on next/prev/parent/children implement an ordered "
-             "forest: links stay mutually consistent and acyclic, every node is in exactly one place, clones have the shape, "
-             "names and values of their source at every depth, destroy is refused on linked nodes and each released node is "
-             "released once.  Every transition of the model is then replayed into the real mptcore/node code (all four links, "
-             "name and value of every node, the released nodes from the allocation seam and the number of live value objects "
-             "compared after each call), and seeded histories on up to 40 nodes with names of 0..300 bytes recorded from the "
-             "real code are validated by TLC against the same specification.",
+        text="TLC checks exhaustively (handle tables of 4 nodes quick / 5 nodes thorough, states identified up to renaming of "
+             "handles, every call with every position -2..3 [-3..4], by position and by name) that the pointer operations on "
+             "next/prev/parent/children implement an ordered forest: links stay mutually consistent and acyclic, every node is "
+             "in exactly one place, clones have the shape, names and values of their source at every depth, a clone that meets "
+             "an allocation failure leaves nothing behind, destroy is refused on linked nodes and each released node is released "
+             "once.  Every transition of the model is then replayed into the real mptcore/node code (all four links, name and "
+             "value of every node, the released nodes from the allocation seam and the number of live value objects compared "
+             "after each call), and seeded histories on 24 handles with names of 0..300 bytes recorded from the real code are "
+             "validated by TLC against the same specification.",
         note="Trusted: TLC, drv/nodetree.c (projection only: follows pointers, maps them to handles).  Callers link only "
              "unlinked nodes and never a node below itself (precondition of the GNode-style calls).  Releases are decided "
              "for the node blocks (allocation seam) and the driver's counting value objects; name buffers are left to ASan.",
@@ -132,13 +133,20 @@ def binding_a(ck, exe, gencfg, tag, nt, samples):
     total = nmm = 0
     acts = {}
     failed = {}
-    for ch in chunks(path, 25000):
+    crashes = 0
+    cut = False
+    for ch in chunks(path, 12500):
         behs = vlib.parse_behaviours("".join(ch))
-        recs, _ = vlib.run_driver(exe, quiet_script(behs), env=FAST_ENV)
+        recs, _ = vlib.run_driver(exe, quiet_script(behs), env=FAST_ENV, timeout=900)
         mms = vlib.compare(behs, recs, match)
         for mm in mms:
             failed[callkey(behs[mm["b"]])] = (behs[mm["b"]], mm)
+            crashes += mm["why"] in ("Crash", "Hang")
         nmm += len(mms)
+        if crashes > 300:       # a tree that crashes this often is reported from what was seen so far
+            total += len(behs)
+            cut = True
+            break
         for beh in behs:
             acts[beh[-1]["a"]] = acts.get(beh[-1]["a"], 0) + 1
             if nontrivial_a(beh):
@@ -166,7 +174,7 @@ def binding_a(ck, exe, gencfg, tag, nt, samples):
             if persig[sig] <= 3:       # a few replay files per signature are enough
                 ck.violation(sig, {"binding": "A(replay)", "behaviour": rootb[mm["b"]], "step": mm["i"],
                                    "why": mm["why"], "record": mm["rec"]})
-    if total != gen.generated - 1:
+    if not cut and total != gen.generated - 1:
         raise vlib.MachineryError("behaviour export incomplete: %d lines for %d transitions" % (total, gen.generated - 1))
     ck.cov["evaluations"] += total
     ck.notes.setdefault("replay", []).append({"cfg": gencfg, "behaviours": total, "mismatches": nmm, "mismatches_without_failed_prefix": roots,
